@@ -219,26 +219,48 @@ theorem sched_message (g : Graph) (hwf : noSelfChild g = true) (hso : stdOutputs
 
 /-- **Every pooled proxy of every state of every run is consistent**: for every instance graph without
 self-children whose tasks have the standard outputs, every op list (main loops, submit results, job messages
-— any order, duplicated, stale — poll results): a running / succeeded / failed task has submitted and started
+— any order, duplicated, stale — poll results; no job-vacation messages, see `vacation_step`): a running / succeeded / failed task has submitted and started
 complete, a submitted task has submitted complete, and **whenever succeeded or failed is complete, submitted
 and started are complete too**. -/
-theorem implied_outputs_run (g : Graph) (hwf : noSelfChild g = true) (hso : stdOutputs g = true) (ops : List XOp) :
-    ∀ s ∈ runX g ops, ∀ x ∈ s.pool, Good x :=
-  fun s hs x hx => ((good_runX g hwf hso ops s hs).2.1 x hx).1
+theorem implied_outputs_run (g : Graph) (hwf : noSelfChild g = true) (hso : stdOutputs g = true) (ops : List XOp)
+    (hv : ∀ op ∈ ops, op.notVacation = true) : ∀ s ∈ runX g ops, ∀ x ∈ s.pool, Good x :=
+  fun s hs x hx => ((good_runX g hwf hso ops hv s hs).2.1 x hx).1
 
 /-- **Lifecycle in every run, for the ops that deliver one message** (a submit result: internal flag; a poll
 result of the current job: polled flag): from every reached state, unless the input is a by-design
 deviation, the status of the addressed proxy moves along the lifecycle (and it stays consistent, with its
 outputs grown).  Received messages are processed in batches by the main loop, each message from a state
 that satisfies the same invariant (`sched_message` applies to each of them). -/
-theorem lifecycle_run (g : Graph) (hwf : noSelfChild g = true) (hso : stdOutputs g = true) (ops : List XOp) :
+theorem lifecycle_run (g : Graph) (hwf : noSelfChild g = true) (hso : stdOutputs g = true) (ops : List XOp)
+    (hv : ∀ op ∈ ops, op.notVacation = true) :
     ∀ s ∈ runX g ops, ∀ (p : Int) (n : String) (x x' : Proxy) (flag : Flag) (sn : Nat) (msg : String),
       s.get? p n = some x → Deviant (g.task? n) flag x msg = false →
       (processMessage g 4 (clearOp s) p n flag sn msg).1.get? p n = some x' →
       Allowed x.status x'.status = true := by
   intro s hs p n x x' flag sn msg h hd h'
-  have hg : GoodState g (clearOp s) := good_eq g s _ rfl rfl (good_runX g hwf hso ops s hs).2
+  have hg : GoodState g (clearOp s) := good_eq g s _ rfl rfl (good_runX g hwf hso ops hv s hs).2
   exact (sched_message g hwf hso (clearOp s) p n x hg h flag sn msg x' h').2.2.2.2 hd
+
+/-! ### run signals and job vacation -/
+
+/-- a failure reported with a run signal, or an abort, is the message `failed` (`split_run_signal`); other
+texts, including a bare `aborted`, are taken as they are -/
+example : canon "failed/ERR" = "failed" ∧ canon "failed/SIGTERM" = "failed" ∧ canon "aborted/by the job" = "failed" ∧
+    canon "failed" = "failed" ∧ canon "aborted" = "aborted" ∧ canon "started" = "started" ∧
+    canon "xx/y" = "xx/y" ∧ splitRunSignal "failed/EXIT" = ("failed", some "EXIT") := by decide
+
+/-- **a vacation message (`vacated/<SIGNAL>`: the batch system pre-empted the job) never touches the
+outputs, the identity or the submit number**; it is the one designed step back in the lifecycle
+(running → submitted, finding job-vacated), and it keeps a proxy consistent when the job had been submitted. -/
+theorem vacation_step (g : Graph) (x : Proxy) :
+    (vacateProxy x).done = x.done ∧ (vacateProxy x).submitNum = x.submitNum ∧
+    (vacateProxy x).pt = x.pt ∧ (vacateProxy x).name = x.name ∧
+    ((vacateProxy x).status = x.status ∨ (vacateProxy x).status = .submitted) ∧
+    (GoodT g x → "submitted" ∈ x.done → GoodT g (vacateProxy x)) := by
+  refine ⟨?_, ?_, ?_, ?_, ?_, goodT_vacate g x⟩ <;> unfold vacateProxy <;> split <;> try split
+  all_goals simp [reset_done, reset_submitNum, reset_pt, reset_name, reset_status_some, reset_status_none]
+
+example : (vacateProxy (exP .running ["submitted", "started"]).x).status = .submitted := by decide
 
 /-- `runX` extends `Sched.run`: op lists without poll results give the same states -/
 theorem runX_base (g : Graph) (ops : List Op) : runX g (ops.map XOp.base) = run g ops := by
